@@ -534,8 +534,14 @@ func run(c *core.Ctx) {
 			dir := filepath.Join(c.WorkDir, fmt.Sprintf("c%d", i))
 			ctx, cancel := context.WithTimeout(context.Background(), 8*time.Minute)
 			defer cancel()
-			mode := []string{"normal", "flood-stop", "stop-with-inflight-frame", "immediate"}[i%4]
+			mode := []string{"normal", "flood-stop", "stop-with-inflight-frame", "immediate", "single-cpu"}[i%5]
 			cmd := exec.CommandContext(ctx, exe, "child", "c20run", strconv.FormatUint(seed, 10), strconv.Itoa(i), strconv.Itoa(cycles), dir, mode)
+			if mode == "single-cpu" {
+				// one usable CPU (a 1-vCPU VM, a cpuset): runtime.NumCPU() is 1 in the child
+				if ts, err := exec.LookPath("taskset"); err == nil {
+					cmd = exec.CommandContext(ctx, ts, "-c", strconv.Itoa(i%runtime.NumCPU()), exe, "child", "c20run", strconv.FormatUint(seed, 10), strconv.Itoa(i), strconv.Itoa(cycles), dir, "normal")
+				}
+			}
 			cmd.Env = append(os.Environ(), "GOTRACEBACK=all")
 			if mode == "immediate" {
 				cmd.Env = append(cmd.Env, "GOMAXPROCS=1")
